@@ -256,8 +256,12 @@ def _create_regex(pat: str) -> re.Pattern[str]:
             regex += ".*"
             continue
         regex += re.escape(char)
+    if backslash_last:
+        # a trailing backslash is a literal backslash
+        regex += re.escape("\\")
 
-    return re.compile(regex)
+    # `*` matches any run of characters, including newlines
+    return re.compile(regex, re.DOTALL)
 
 
 def match_with_wildcard(name: str, pattern: str | None) -> bool:
